@@ -450,8 +450,22 @@ pub fn c13_non_utf8_arguments(out: &mut Out) {
 		let _ = std::fs::remove_dir_all(&dir);
 		return;
 	}
+	// names whose STEM is not UTF-8 but whose extension is: the extension still
+	// decides the format (content chosen so that detection alone would differ)
+	let ext_yaml: &[u8] = b"caf\xe9.yaml";
+	let ext_yml_upper: &[u8] = b"\xff.YmL";
+	let ext_toml: &[u8] = b"r\xe9sum\xe9.v2.toml";
+	let ext_json: &[u8] = b"\xff\xfe.json";
+	let _ = std::fs::write(std::path::Path::new(&dir).join(os(ext_yaml)), b"hello world\n");
+	let _ = std::fs::write(std::path::Path::new(&dir).join(os(ext_yml_upper)), b"a = 1\n");
+	let _ = std::fs::write(std::path::Path::new(&dir).join(os(ext_toml)), b"[1]\nk = 2\n");
+	let _ = std::fs::write(std::path::Path::new(&dir).join(os(ext_json)), b"k: v\n");
 	// (arguments, expected status, expected stdout if 0, bytes stderr must contain)
 	let cases: Vec<(Vec<&[u8]>, i32, &[u8], &[u8])> = vec![
+		(vec![b"-tj", ext_yaml], 0, b"\"hello world\"\n", b""),
+		(vec![b"-tj", ext_yml_upper], 0, b"\"a = 1\"\n", b""),
+		(vec![b"-tj", ext_toml], 0, b"{\"1\":{\"k\":2}}\n", b""),
+		(vec![b"-tj", ext_json], 1, b"", b"xt error in "),
 		(vec![b"-tj", good_name], 0, b"{\"a\":[1,2]}\n", b""),
 		(vec![b"-tj", b"--", good_name], 0, b"{\"a\":[1,2]}\n", b""),
 		(vec![b"-tj", b"plain.json", good_name], 0, b"[0]\n{\"a\":[1,2]}\n", b""),
@@ -721,6 +735,140 @@ pub fn c16_consumer_gone_routes(out: &mut Out) {
 							),
 						);
 					}
+				}
+			}
+		}
+	}
+	let _ = std::fs::remove_dir_all(&dir);
+}
+
+
+/// C13 / C04: the name xt was started under (argv[0]) is data like any other —
+/// a name that is not UTF-8, an empty one, a very long one change nothing but
+/// the name shown in the usage text: same exit status, same stdout, and never a
+/// death by signal.
+pub fn arg0_variants(out: &mut Out) {
+	use std::ffi::OsString;
+	use std::os::unix::ffi::OsStringExt;
+	use std::os::unix::process::CommandExt;
+	use std::process::{Command, Stdio};
+	let dir = procs::scratch_dir("c13z");
+	let _ = std::fs::write(format!("{dir}/a.json"), b"{\"a\": 1}\n");
+	let names: Vec<(&str, OsString)> = vec![
+		("plain", OsString::from("xt")),
+		("latin1", OsString::from_vec(b"caf\xe9-xt".to_vec())),
+		("invalid-utf8-path", OsString::from_vec(b"/opt/\xff\xfe/bin/xt".to_vec())),
+		("empty", OsString::from("")),
+		("long", OsString::from("x".repeat(5000))),
+		("spaces", OsString::from("my xt tool")),
+	];
+	let lines: Vec<Vec<&str>> = vec![
+		vec!["-h"],
+		vec!["--help"],
+		vec!["-V"],
+		vec!["--version"],
+		vec!["--bogus"],
+		vec!["-x"],
+		vec!["-f"],
+		vec!["-f", "nope", "a.json"],
+		vec!["-tj", "-tj", "a.json"],
+		vec!["-tj", "a.json"],
+		vec!["-tj", "missing.json"],
+		vec!["-tt", "a.json", "a.json"],
+	];
+	for (_, bin) in bins() {
+		for line in &lines {
+			let mut reference: Option<(Option<i32>, Vec<u8>, usize)> = None;
+			for (label, name) in &names {
+				let o = Command::new(&bin).arg0(name).args(line).current_dir(&dir).stdin(Stdio::null()).stdout(Stdio::piped()).stderr(Stdio::piped()).output();
+				let Ok(o) = o else { continue };
+				let code = o.status.code();
+				out.eval("arg0_is_only_a_name", &format!("{label} {}", line.join(" ")), true);
+				let stderr_lines = o.stderr.iter().filter(|b| **b == b'\n').count();
+				if code.is_none() {
+					out.fail(
+						"arg0_is_only_a_name",
+						"",
+						format!("xt started under the name {:?} ({label}) with arguments {:?}: killed by a signal ({:?}); stderr {:?}", name, line, o.status, String::from_utf8_lossy(&o.stderr).chars().take(200).collect::<String>()),
+					);
+					continue;
+				}
+				// help text and usage contain the name: compare status, and stdout / stderr line counts
+				let shape = (code, if line.iter().any(|a| ["-h", "--help"].contains(a)) { vec![] } else { o.stdout.clone() }, stderr_lines);
+				match &reference {
+					None => reference = Some(shape),
+					Some(r) => {
+						if *r != shape {
+							out.fail(
+								"arg0_is_only_a_name",
+								"",
+								format!(
+									"xt {:?}: under the name \"xt\" exit {:?} with {} bytes of stdout and {} stderr lines, under the name {:?} ({label}) exit {:?} with {} bytes of stdout and {} stderr lines",
+									line,
+									r.0,
+									r.1.len(),
+									r.2,
+									name,
+									shape.0,
+									shape.1.len(),
+									shape.2
+								),
+							);
+						}
+					}
+				}
+			}
+		}
+	}
+	let _ = std::fs::remove_dir_all(&dir);
+}
+
+/// C04 / C11: a failing input whose offending line is long and not ASCII (the
+/// parsers quote the line, or part of it, in their message): xt reports it and
+/// exits 1 — whatever it does to the text of the message, it does not die.
+pub fn c04_long_error_lines(out: &mut Out) {
+	let dir = procs::scratch_dir("c04l");
+	let mut inputs: Vec<(String, Fmt, Vec<u8>)> = vec![];
+	for pad in 0..4usize {
+		for (chname, ch) in [("2byte", "\u{e9}"), ("3byte", "\u{20ac}"), ("4byte", "\u{1f600}")] {
+			for n in [200usize, 700, 3000] {
+				let body: String = std::iter::repeat(ch).take(n).collect();
+				let p = "x".repeat(pad);
+				inputs.push((format!("toml.unterminated.{chname}.{n}.{pad}"), Fmt::Toml, format!("{p}a = \"{body}\n").into_bytes()));
+				inputs.push((format!("toml.barekey.{chname}.{n}.{pad}"), Fmt::Toml, format!("{p}{body} = 1\n").into_bytes()));
+				inputs.push((format!("toml.second_line.{chname}.{n}.{pad}"), Fmt::Toml, format!("ok = 1\n{p}b = [{body}\n").into_bytes()));
+				inputs.push((format!("json.bareword.{chname}.{n}.{pad}"), Fmt::Json, format!("{{\"{p}\": {body}}}\n").into_bytes()));
+				inputs.push((format!("yaml.unclosed.{chname}.{n}.{pad}"), Fmt::Yaml, format!("{p}a: [\"{body}\", \n").into_bytes()));
+				inputs.push((format!("yaml.badindent.{chname}.{n}.{pad}"), Fmt::Yaml, format!("{p}a:\n  - {body}\n b: : [\n").into_bytes()));
+			}
+		}
+	}
+	for (_, bin) in bins() {
+		for (label, f, bytes) in &inputs {
+			let path = format!("{dir}/in.{}", f.name());
+			std::fs::write(&path, bytes).expect("write");
+			for via_stdin in [false, true] {
+				let mut args = vec!["-tj".to_string()];
+				if via_stdin {
+					args.push(format!("-f{}", f.letter()));
+				} else {
+					args.push(path.clone());
+				}
+				let r = procs::run(&bin, &args, if via_stdin { Some(bytes) } else { None }, Duration::from_secs(60));
+				out.eval("long_error_line_survives", &format!("{label}{via_stdin}"), true);
+				if r.status != Status::Exit(1) || !r.stderr.starts_with(b"xt error") {
+					out.fail(
+						"binary_survives",
+						"",
+						format!(
+							"[{label}] xt {} ({} bytes via {}): wait status {:?}, stderr {:?} — expected exit 1 with an `xt error` line",
+							args.join(" "),
+							bytes.len(),
+							if via_stdin { "stdin" } else { "file" },
+							r.status,
+							String::from_utf8_lossy(&r.stderr).chars().take(160).collect::<String>()
+						),
+					);
 				}
 			}
 		}
